@@ -6,6 +6,10 @@ TECH = "bounded exhaustive enumeration (stateless explicit-state exploration of 
 
 # property -> (category, text, note, technique)
 CHECKS = {
+ "C18": ("fault_enumeration",
+  "Fault enumeration over ~70 C-API call histories (init/calls/end, copies mid-stream, reset/params/dictionary, several streams sharing one allocator, inflateBack) and ~40 gz-layer histories: each is run once to count its N allocation requests and then once for every k with only request k failing and once for every k with all requests from k failing. Guard-paged allocator with freed blocks unmapped (use-after-free faults), byte-balanced global allocator for gz. Oracle: the faulted call reports Z_MEM_ERROR / NULL / error, End on the faulted stream is safe and releases nothing foreign, re-initialisation works, everything is released exactly once, a bystander stream is unaffected.",
+  "Trusted: the harness allocators. Histories outside the enumerated set and independent double faults other than fail-from-k are not covered.",
+  "exhaustive single-fault and fail-from-k enumeration over a fixed set of call histories"),
  "C14": ("model_checking",
   "Explicit enumeration of (prefix program up to depth 2 (3), branching point, suffix program up to depth 2) on compression (7 configurations incl. copy mid-gzip-header) and decompression (5 data sets incl. after an error, mid-header, inside a partially copied match): at the branching point the stream is duplicated and the suffix is run on both streams in alternation / with the original ended first / with the copy ended first, freed allocations being unmapped so that any sharing faults; every call's observables must equal those of the uncopied program. Likewise prefix ; reset ; suffix against a freshly initialised stream with the same parameters (C API and Rust reset methods).",
   "Trusted: the harness. Parameters that zlib keeps across a reset (level/strategy set by deflateParams, inflateValidate) are applied to the fresh stream too; the adler field of raw inflate streams is not compared.",
